@@ -87,6 +87,13 @@ func InspectSymbolContent(name string) string {
 		case '"':
 			result.WriteString(`\"`)
 			quotes = true
+		case '$':
+			// `$` and `#` start an interpolation in a quoted symbol literal
+			result.WriteString(`\$`)
+			quotes = true
+		case '#':
+			result.WriteString(`\#`)
+			quotes = true
 		case '_':
 			result.WriteByte('_')
 		default:
